@@ -340,6 +340,8 @@ def c15_stages(tier):
 
 
 def c16_stages(tier):
+    if tier == 'thorough':
+        return [LA('aff-t', 'MC_Linalg_aff_t.cfg')]       # superset of aff-q: more shapes and magnitudes
     return [LA('aff-q', 'MC_Linalg_aff_q.cfg')]
 
 
